@@ -50,6 +50,8 @@ def _uf():
 
 
 def check(ctx, rep):
+    from ..optargs import check as _optargs
+    _optargs(ctx, rep, ['pcbasic/basic/devices/files.py', 'pcbasic/basic/devices/diskfiles.py'], 12)
     from . import c24 as _c24, _share as _sh
     _sh.share(ctx, rep, _c24, ('eof-marker.cut',), 'opening a file never cuts a byte off it except the EOF marker of a text file opened for APPEND')
     n = 0
@@ -171,7 +173,7 @@ def check(ctx, rep):
     rep.ob('open.start', 'a newly opened random file starts at record 0 / byte 0', 'self._recpos = 0' in st and 'self._fhandle.seek(0)' in st, '', ctx.where(ini))
 
 
-def variants(ctx):
+def _variants0(ctx):
     Va = mu.Variant
 
     def in_fn(f_name, f):
@@ -204,4 +206,11 @@ def variants(ctx):
            in_fn('RandomFile.loc', lambda fn: mu.replace_expr(fn, mu.text_is('self._recpos'), 'self._recpos + 1')), expect='loc'),
         Va('pad-guard-commuted', 'neutral', DF,
            in_fn('RandomFile.put', lambda fn: mu.replace_expr(fn, mu.text_is('self._recpos * self.reclen > current_length'), 'self.reclen * self._recpos > current_length'))),
+    ]
+
+
+def variants(ctx):
+    return _variants0(ctx) + [
+        mu.Variant('width-rows-zero-treated-as-omitted', 'break', 'pcbasic/basic/devices/files.py',
+                   lambda tree: (lambda fn: mu.replace_expr(fn, mu.text_is('num_rows_dummy is not None'), 'num_rows_dummy', count=2))(mu.find_def(tree, 'Files.width_')), expect='arguments.zero-is-not-omitted'),
     ]
